@@ -6,9 +6,15 @@ DST="/verif/seeded/$PROP/$N"; mkdir -p "$DST"
 cp "$SRC/patch.diff" "$SRC/demo.py" "$DST/"
 OUT="$(/verif/tools/seedcheck.sh "$SRC" "$PROP" "$@" 2>&1)"
 echo "$OUT"
-/venv/bin/python - "$SRC/meta.json" "$DST/meta.json" "$PROP" "$OUT" <<'PY'
+ALSO_OUT=""
+if [ -n "${ALSO:-}" ]; then
+  # the change is also run against the check of a neighbouring property (ALSO=<ID>)
+  ALSO_OUT="$(SKIP_TESTS=1 /verif/tools/seedcheck.sh "$SRC" "$ALSO" "$@" 2>&1)"
+  echo "--- also against $ALSO"; echo "$ALSO_OUT"
+fi
+/venv/bin/python - "$SRC/meta.json" "$DST/meta.json" "$PROP" "$OUT" "${ALSO:-}" "$ALSO_OUT" <<'PY'
 import json,sys,re
-src,dst,prop,out=sys.argv[1:5]
+src,dst,prop,out,also,also_out=sys.argv[1:7]
 m=json.load(open(src))
 demo=re.search(r"demo: pristine rc=(\d+) changed rc=(\d+)",out)
 rc=re.search(r"check rc=(\d+)",out)
@@ -18,5 +24,6 @@ json.dump({"property":prop,"summary":m.get("summary"),"needs":m.get("needs"),"fi
  "author_tests_run":m.get("tests_run"),
  "verified":{"how":"tools/seedcheck.sh in a throw-away clone of /repo: demo.py on the pristine and on the changed tree, coba's own test suite on the changed tree, then ./check %s --tier quick with VERIF_REPO pointing at the changed tree"%prop,
    "demo_rc_pristine":int(demo.group(1)) if demo else None,"demo_rc_changed":int(demo.group(2)) if demo else None,
-   "new_test_failures_vs_baseline":newfails,"check_rc":int(rc.group(1)) if rc else None,"check_output":viol}},open(dst,"w"),indent=1)
+   "new_test_failures_vs_baseline":newfails,"check_rc":int(rc.group(1)) if rc else None,"check_output":viol,
+   **({"also_caught_by": also + " (" + "; ".join(l[:160] for l in also_out.splitlines() if l.startswith("["))[:400] + ")"} if also and re.search(r"check rc=1", also_out) else ({"also_run_against": also + ": not caught"} if also else {}))}},open(dst,"w"),indent=1)
 PY
